@@ -1,3 +1,460 @@
-import Econf.Parser
+import Econf.Lemmas.DocLemmas
+import Econf.Lemmas.LayeredLemmas
+import Econf.Writer
+import Econf.Merge
+
+/-!
+  # C17 – provenance metadata matches the source file
+
+  Built on the C02 theorem: for every document of the conventional grammar the parser's state is
+  `expDoc doc`, so the statements below about `expDoc`/`entryOf` are statements about what
+  `econf_readFile` stores and `econf_getExtValue` (`getExt`, `extValues`) reports:
+  line number (`C17_line`), comment lines before (`C17_comment_block`, `C17_comment_block_first`),
+  trailing comment (`C17_trailing`), value lines (`C17_values_plain`, `C17_values_quoted`), and the
+  path query (`C17_path_single`, `C17_path_merged`) on the layered-read model.
+-/
+
+set_option linter.unusedSimpArgs false
+
 namespace Econf
+
+
+/-! ### line number -/
+
+/-- **C17, line.**  The entry contributed by an entry item carries the 1-based number of the
+    physical line on which the item ends (its last continuation line), whatever precedes it. -/
+theorem C17_line (cfg : Cfg) (pre post : List Item) (e : EntryI)
+    (h : ∀ it ∈ pre ++ .entry e :: post, it.WF cfg) :
+    ∃ before after,
+      (expDoc (pre ++ .entry e :: post)).entries = before ++ entryOf (expDoc pre) e :: after ∧
+      (entryOf (expDoc pre) e).line = (renderLines (pre ++ [.entry e])).length := by
+  have hpre : ∀ it ∈ pre, it.WF cfg := fun it hit => h it (List.mem_append_left _ hit)
+  have he : (Item.entry e).WF cfg := h _ (by simp)
+  have hpost : ∀ it ∈ post, it.WF cfg := fun it hit => h it (by simp [hit])
+  obtain ⟨more, hm⟩ := expDoc_entries_prefix cfg post (expItem (expDoc pre) (.entry e)) hpost
+  refine ⟨(expDoc pre).entries, more, ?_, ?_⟩
+  · unfold expDoc at hm ⊢
+    rw [List.foldl_append, List.foldl_cons, hm, expItem_entries cfg _ _ he]
+    simp [Item.adds]
+  · have := expDoc_line pre {}
+    simp only [entryOf, expDoc, this, renderLines, List.flatMap_append, List.flatMap_cons, List.flatMap_nil,
+      List.length_append, Item.lines, List.length_cons, List.length_map, List.append_nil]
+    show 0 + _ + 1 + _ = _
+    omega
+
+/-! ### comment lines before the entry -/
+
+/-- the texts of the comment lines of a block (blank lines do not count) -/
+def commentTexts : List Item → List Str
+  | [] => []
+  | .comment _ _ t :: r => t :: commentTexts r
+  | _ :: r => commentTexts r
+
+theorem appendComment_fold (ts : List Str) (acc : Str) :
+    ts.foldl appendComment (some (acc)) = some (joinWith NL (acc :: ts)) := by
+  induction ts generalizing acc with
+  | nil => rfl
+  | cons x xs ih =>
+    rw [List.foldl_cons]
+    show xs.foldl appendComment (some (nlCat acc x)) = _
+    rw [ih]
+    congr 1
+    cases xs with
+    | nil => simp [joinWith, nlCat]
+    | cons y ys => simp [joinWith, nlCat]
+
+theorem inert_block_cb (st : PState) (block : List Item) (h : ∀ it ∈ block, it.inert = true) :
+    (block.foldl expItem st).cb = (commentTexts block).foldl appendComment st.cb := by
+  induction block generalizing st with
+  | nil => rfl
+  | cons it its ih =>
+    have hi := h it (by simp)
+    rw [List.foldl_cons, ih _ (fun x hx => h x (List.mem_cons_of_mem _ hx))]
+    cases it with
+    | blank ws => rfl
+    | comment ind c t => rfl
+    | sect _ _ _ _ => cases hi
+    | entry _ => cases hi
+
+/-- no comment line is pending behind an entry item -/
+theorem entry_clears_cb (cfg : Cfg) (st : PState) (e : EntryI) (h : e.WF cfg) : (expItem st (.entry e)).cb = none := by
+  rw [C02_entry_item cfg st e h]
+
+/-- **C17, comments before.**  An entry directly preceded by a block of comment lines (blank lines
+    may be interleaved), itself preceded by another entry, carries exactly the texts of those comment
+    lines, joined by line breaks – and nothing when the block has no comment line. -/
+theorem C17_comment_block (cfg : Cfg) (st : PState) (e0 e : EntryI) (block : List Item)
+    (h0 : e0.WF cfg) (hb : ∀ it ∈ block, it.inert = true) :
+    (entryOf (block.foldl expItem (expItem st (.entry e0))) e).cb =
+      (match commentTexts block with
+       | [] => none
+       | t :: ts => some (joinWith NL (t :: ts))) := by
+  simp only [entryOf]
+  rw [inert_block_cb _ block hb, entry_clears_cb cfg st e0 h0]
+  cases commentTexts block with
+  | nil => rfl
+  | cons t ts =>
+    rw [List.foldl_cons]
+    exact appendComment_fold ts t
+
+/-- the same at the start of the file -/
+theorem C17_comment_block_first (e : EntryI) (block : List Item) (hb : ∀ it ∈ block, it.inert = true) :
+    (entryOf (expDoc block) e).cb =
+      (match commentTexts block with
+       | [] => none
+       | t :: ts => some (joinWith NL (t :: ts))) := by
+  simp only [entryOf, expDoc]
+  rw [inert_block_cb _ block hb]
+  cases commentTexts block with
+  | nil => rfl
+  | cons t ts =>
+    rw [List.foldl_cons]
+    exact appendComment_fold ts t
+
+/-! ### trailing comment -/
+
+/-- **C17, trailing comment.**  A single-line entry with no trailing comment pending from a section
+    header carries the text behind the comment character of its own line, or nothing. -/
+theorem C17_trailing (st : PState) (e : EntryI) (hca : st.ca = none) (hc : e.cont = []) :
+    (entryOf st e).ca = e.tc.map (·.text) := by
+  simp only [entryOf, hca, hc, List.length_nil, List.replicate_zero, List.append_nil]
+  cases e.tc with
+  | none => rfl
+  | some t => simp [caWith, appendComment]
+
+
+/-! ### value lines -/
+
+
+theorem dropWhile_append_stop {α} (p : α → Bool) (x r : List α) (h : ∃ c ∈ x, p c = false) :
+    (x ++ r).dropWhile p = x.dropWhile p ++ r := by
+  induction x with
+  | nil => obtain ⟨c, hc, _⟩ := h; cases hc
+  | cons a as ih =>
+    cases hpa : p a
+    · simp [List.dropWhile_cons, hpa]
+    · obtain ⟨c, hc, hpc⟩ := h
+      have : ∃ c ∈ as, p c = false := by
+        rcases List.mem_cons.mp hc with rfl | hc
+        · rw [hpa] at hpc; cases hpc
+        · exact ⟨c, hc, hpc⟩
+      simp [List.dropWhile_cons, hpa, ih this]
+
+theorem dropLastWhile_append_stop (p : Byte → Bool) (a z : Str) (h : ∃ c ∈ z, p c = false) :
+    dropLastWhile p (a ++ z) = a ++ dropLastWhile p z := by
+  unfold dropLastWhile
+  rw [List.reverse_append, dropWhile_append_stop p z.reverse a.reverse (by
+    obtain ⟨c, hc, hpc⟩ := h; exact ⟨c, List.mem_reverse.mpr hc, hpc⟩)]
+  simp
+
+theorem joinWith_cons (c : Byte) (x : Str) (xs : List Str) (h : xs ≠ []) : joinWith c (x :: xs) = x ++ c :: joinWith c xs := by
+  cases xs with
+  | nil => exact absurd rfl h
+  | cons y ys => rfl
+
+theorem joinWith_snoc (c : Byte) (xs : List Str) (z : Str) :
+    joinWith c (xs ++ [z]) = (xs.flatMap (fun x => x ++ [c])) ++ z := by
+  induction xs with
+  | nil => rfl
+  | cons x xs ih =>
+    rw [List.cons_append, joinWith_cons c x (xs ++ [z]) (by simp), ih]
+    simp
+
+theorem trim_id (s : Str) (hh : ∀ c, s.head? = some c → isSpace c = false) (hl : ∀ c, s.getLast? = some c → isSpace c = false) :
+    trim s = s := by
+  unfold trim
+  have h1 : s.dropWhile isSpace = s := by
+    cases s with
+    | nil => rfl
+    | cons a as => simp [List.dropWhile_cons, hh a rfl]
+  rw [h1]
+  have := dropLastWhile_text_blanks s [] (by intro c hc; cases hc) hl
+  simpa using this
+
+theorem trim_padded (ind t tr : Str) (hi : blanks ind) (htr : blanks tr) (hne : t ≠ [])
+    (hh : ∀ c, t.head? = some c → isSpace c = false) (hl : ∀ c, t.getLast? = some c → isSpace c = false) :
+    trim (ind ++ t ++ tr) = t := by
+  unfold trim
+  rw [List.append_assoc, dropWhile_blanks _ _ hi]
+  have h1 : (t ++ tr).dropWhile isSpace = t ++ tr := by
+    cases t with
+    | nil => exact absurd rfl hne
+    | cons a as => simp [List.dropWhile_cons, hh a rfl]
+  rw [h1, dropLastWhile_text_blanks t tr htr hl]
+
+theorem joinWith_flat (c : Byte) (v : Str) (xs : List Str) : joinWith c (v :: xs) = v ++ xs.flatMap (fun x => c :: x) := by
+  induction xs generalizing v with
+  | nil => simp [joinWith]
+  | cons x xs ih => rw [joinWith_cons c v (x :: xs) (by simp), ih]; simp
+
+theorem contValue_flat (a : Str) (conts : List ContLine) :
+    contValue (some a) conts = some (a ++ conts.flatMap (fun l => NL :: l.render)) := by
+  induction conts generalizing a with
+  | nil => simp [contValue]
+  | cons l ls ih =>
+    unfold contValue at ih ⊢
+    rw [List.foldl_cons]
+    show List.foldl (fun v l => some (nlCat (v.getD []) l.render)) (some (nlCat a l.render)) ls = _
+    rw [ih]; simp [nlCat]
+
+/-- value of an entry with continuation lines, as one joined text -/
+theorem contValue_join (v : Str) (conts : List ContLine) :
+    contValue (some v) conts = some (joinWith NL (v :: conts.map ContLine.render)) := by
+  rw [contValue_flat, joinWith_flat, List.flatMap_map]
+
+
+theorem getLast?_append_ne (a b : Str) (h : b ≠ []) : (a ++ b).getLast? = b.getLast? := by
+  cases b with
+  | nil => exact absurd rfl h
+  | cons x xs =>
+    cases hl : (x :: xs).getLast? with
+    | none => simp at hl
+    | some y => simp [List.getLast?_append, hl]
+
+/-- a continuation line whose text neither starts nor ends with a blank -/
+def ContLine.Tight (l : ContLine) : Prop :=
+  (∀ c, l.text.head? = some c → isSpace c = false) ∧ (∀ c, l.text.getLast? = some c → isSpace c = false)
+
+/-- **C17, value lines.**  The extended getter reports the value of an entry with a non-empty plain
+    value as: the value as written, then the text of each continuation line without its indentation
+    and trailing blanks. -/
+theorem C17_values_plain (cfg : Cfg) (e : EntryI) (v : Str) (h : e.WF cfg) (hv : e.value = .plain v) (hne : v ≠ [])
+    (hc : ∀ l ∈ e.cont, l.WF cfg ∧ l.Tight) :
+    extValues (contValue e.expValue.1 e.cont) = v :: e.cont.map (·.text) := by
+  have hval := h.val
+  rw [hv] at hval
+  obtain ⟨hvt, _, hvh, hvl⟩ := hval
+  have hexp : e.expValue.1 = some v := by
+    cases v with
+    | nil => exact absurd rfl hne
+    | cons a as => simp [EntryI.expValue, hv]
+  obtain ⟨v0, vs, rfl⟩ : ∃ v0 vs, v = v0 :: vs := by
+    cases v with
+    | nil => exact absurd rfl hne
+    | cons a as => exact ⟨a, as, rfl⟩
+  have hv0 := hvh v0 rfl
+  have hvh' : ∀ c, (v0 :: vs).head? = some c → isSpace c = false := fun c hc => (hvh c hc).1
+  rw [hexp, contValue_join]
+  -- the trimmed text
+  have htrim : ∃ ys : List Str, trim (joinWith NL ((v0 :: vs) :: e.cont.map ContLine.render)) = joinWith NL ((v0 :: vs) :: ys) ∧
+      ys.map trim = e.cont.map (·.text) ∧ (∀ y ∈ ys, NL ∉ y) := by
+    rcases List.eq_nil_or_concat e.cont with hnil | ⟨init, last, hcl⟩
+    · refine ⟨[], ?_, by simp [hnil], by simp⟩
+      rw [hnil]
+      exact trim_id (v0 :: vs) hvh' hvl
+    · rw [List.concat_eq_append] at hcl
+      have hlast := hc last (by rw [hcl]; simp)
+      have hinit : ∀ l ∈ init, l.WF cfg ∧ l.Tight := fun l hl => hc l (by rw [hcl]; simp [hl])
+      refine ⟨init.map ContLine.render ++ [last.indent ++ last.text], ?_, ?_, ?_⟩
+      · rw [hcl, List.map_append, List.map_cons, List.map_nil, ← List.cons_append, joinWith_snoc,
+          ← List.cons_append, joinWith_snoc]
+        unfold trim
+        have hd : ∀ r : Str, ((v0 :: vs) ++ r).dropWhile isSpace = (v0 :: vs) ++ r := by
+          intro r; simp [List.dropWhile_cons, hv0.1]
+        rw [List.flatMap_cons]
+        generalize List.flatMap (fun x => x ++ [NL]) (List.map ContLine.render init) = A
+        have e1 : (v0 :: vs) ++ [NL] ++ A ++ last.render = (v0 :: vs) ++ ([NL] ++ A ++ last.render) := by simp
+        have e2 : (v0 :: vs) ++ ([NL] ++ A ++ last.render) = ((v0 :: vs) ++ [NL] ++ A ++ (last.indent ++ last.text)) ++ last.trail := by
+          simp [ContLine.render]
+        rw [e1, hd, e2, dropLastWhile_text_blanks _ last.trail hlast.1.trail]
+        intro c hcl'
+        rw [← List.append_assoc, getLast?_append_ne _ _ hlast.1.textNe] at hcl'
+        exact hlast.2.2 c hcl'
+      · rw [List.map_append, List.map_map, hcl, List.map_append]
+        congr 1
+        · apply List.map_congr_left
+          intro l hl
+          have := hinit l hl
+          exact trim_padded l.indent l.text l.trail this.1.ind this.1.trail this.1.textNe this.2.1 this.2.2
+        · simp only [List.map_cons, List.map_nil]
+          have := trim_padded last.indent last.text [] hlast.1.ind (by intro c hc; cases hc) hlast.1.textNe hlast.2.1 hlast.2.2
+          simp only [List.append_nil] at this
+          rw [this]
+      · intro y hy
+        rcases List.mem_append.mp hy with hy | hy
+        · obtain ⟨l, hl, rfl⟩ := List.mem_map.mp hy
+          have := (hinit l hl).1
+          apply text_ne_NL
+          unfold ContLine.render
+          exact texts_append (texts_append (texts_blanks this.ind) (fun x hx => (this.textCh x hx).1)) (texts_blanks this.trail)
+        · simp only [List.mem_singleton] at hy; subst hy
+          apply text_ne_NL
+          exact texts_append (texts_blanks hlast.1.ind) (fun x hx => (hlast.1.textCh x hx).1)
+  obtain ⟨ys, ht, hmap, hnl⟩ := htrim
+  unfold extValues
+  simp only [ht]
+  have hq : ((joinWith NL ((v0 :: vs) :: ys)).head? == some QUOTE) = false := by
+    rw [joinWith_flat]
+    simp only [List.cons_append, List.head?_cons]
+    cases hh : (some v0 == some QUOTE)
+    · rfl
+    · exact absurd (by simpa using hh) hv0.2
+  simp only [hq, Bool.false_eq_true, if_false]
+  rw [splitOn_joinWith NL _ (by simp)]
+  · simp only [List.map_cons, hmap, trim_id (v0 :: vs) hvh' hvl]
+  · intro p hp
+    rcases List.mem_cons.mp hp with rfl | hp
+    · exact text_ne_NL hvt
+    · exact hnl p hp
+
+theorem dropWhile_idem {α} (p : α → Bool) (l : List α) : (l.dropWhile p).dropWhile p = l.dropWhile p := by
+  induction l with
+  | nil => rfl
+  | cons a as ih =>
+    cases hp : p a
+    · simp [List.dropWhile_cons, hp]
+    · simp [List.dropWhile_cons, hp, ih]
+
+theorem dropWhile_reverse_dropWhile (p : Byte → Bool) (l : Str) :
+    (dropLastWhile p (l.dropWhile p)).dropWhile p = dropLastWhile p (l.dropWhile p) := by
+  -- the first byte of `l.dropWhile p`, if any, fails `p`, and survives the trimming at the end
+  cases hl : l.dropWhile p with
+  | nil => rfl
+  | cons a as =>
+    have ha : p a = false := by
+      have := @List.head_dropWhile_not _ p l (by rw [hl]; simp)
+      simpa [hl] using this
+    have : dropLastWhile p (a :: as) = a :: dropLastWhile p as := by
+      have := dropLastWhile_append_stop p [] (a :: as) ⟨a, by simp, ha⟩
+      rw [show a :: as = [a] ++ as by rfl]
+      by_cases has : ∃ c ∈ as, p c = false
+      · exact dropLastWhile_append_stop p [a] as has
+      · have hall : ∀ c ∈ as, p c = true := by
+          intro c hc
+          cases hpc : p c
+          · exact absurd ⟨c, hc, hpc⟩ has
+          · rfl
+        rw [dropLastWhile_append_all p [a] as hall]
+        have h1 : dropLastWhile p [a] = [a] := by simp [dropLastWhile, List.dropWhile_cons, ha]
+        have h2 : dropLastWhile p as = [] := by
+          have := dropLastWhile_append_all p [] as hall
+          simpa [dropLastWhile] using this
+        rw [h1, h2]
+    rw [this, List.dropWhile_cons, ha]; rfl
+
+theorem trim_trim (s : Str) : trim (trim s) = trim s := by
+  unfold trim
+  rw [dropWhile_reverse_dropWhile]
+  unfold dropLastWhile
+  rw [List.reverse_reverse, dropWhile_idem]
+
+/-- a quoted single-line value is reported as one item (without outer blanks) -/
+theorem C17_values_quoted (q : Str) (hq : texts q) : extValues (some q) = [trim q] := by
+  unfold extValues
+  simp only
+  split
+  · rfl
+  · have hnl : NL ∉ trim q := by
+      intro hin
+      unfold trim dropLastWhile at hin
+      have h1 := (List.dropWhile_sublist _).subset (List.mem_reverse.mp hin)
+      have h2 := (List.dropWhile_sublist _).subset (List.mem_reverse.mp h1)
+      exact text_ne_NL hq h2
+    have := splitOn_joinWith NL [trim q] (by simp) (by intro p hp; simp at hp; subst hp; exact hnl)
+    simp only [joinWith] at this
+    rw [this]
+    simp only [List.map_cons, List.map_nil]
+    congr 1
+    exact trim_trim q
+
+
+/-! ### the path query -/
+
+
+theorem pathOf_abs (c : List Str) : (pathOf c).head? = some SLASH := by
+  unfold pathOf
+  cases c with
+  | nil => rfl
+  | cons x xs => simp
+
+theorem absPath_abs (fs : FS) (p a : Str) (h : absPath fs p = some a) : a.head? = some SLASH := by
+  unfold absPath at h
+  by_cases hp : (p.head? == some SLASH) = true
+  · simp only [hp, if_true, Option.some.injEq] at h
+    subst h; simpa using hp
+  · simp only [hp, Bool.false_eq_true, if_false] at h
+    unfold FS.realpath at h
+    split at h
+    · cases h
+    · simp only at h
+      split at h
+      · simp only [Option.some.injEq] at h; subst h; exact pathOf_abs _
+      · cases h
+    · simp only [Option.some.injEq] at h; subst h; exact pathOf_abs _
+
+/-- **C17, path of a single file.**  After a successful `econf_readFile`, the path query returns the
+    absolute path `get_absolute_path` computes for the name given – the name itself when it starts
+    with `/`, the resolved path (current directory, `.` and `..` components, a link) otherwise – and
+    that path starts with `/`. -/
+theorem C17_path_single (ctx : RdCtx) (s s' : RdState) (p d c : Str) (kf : KeyFile)
+    (h : readFile ctx s (some p) (some d) (some c) = (s', .success, some kf)) :
+    ∃ a, absPath ctx.fs p = some a ∧ getPath kf = a ∧ a.head? = some SLASH ∧
+      (p.head? = some SLASH → a = p) := by
+  unfold readFile at h
+  simp only at h
+  unfold readFileCB at h
+  cases hl : ctx.fs.lstat p with
+  | none => simp [hl] at h
+  | some node =>
+    simp only [hl] at h
+    cases hg : gate s.g node with
+    | some e => simp [hg] at h
+    | none =>
+      simp only [hg] at h
+      cases hacc : (askCallback ctx.cb s p).2
+      · simp [hacc] at h
+      · simp only [hacc, Bool.not_true, Bool.false_eq_true, if_false] at h
+        cases ha : absPath ctx.fs p with
+        | none => simp [ha] at h
+        | some a =>
+          simp only [ha] at h
+          refine ⟨a, rfl, ?_, absPath_abs ctx.fs p a ha, ?_⟩
+          · have hs := (readOpened_spec ctx { (askCallback ctx.cb s p).1 with trace := (askCallback ctx.cb s p).1.trace ++ [Event.openFile a] } false false a d c).2.2
+            generalize readOpened ctx _ false false a d c = r at h hs
+            obtain ⟨r1, r2⟩ := r
+            cases r2 with
+            | error e => simp at h
+            | ok kf' =>
+              simp only [Prod.mk.injEq, Option.some.injEq, true_and] at h
+              rcases hs with hs | ⟨e, hs, _⟩ | ⟨kf'', hs, hp⟩
+              · cases hs
+              · cases hs
+              · simp only [Except.ok.injEq] at hs
+                rw [← h.2, hs]
+                simp [getPath, hp]
+          · intro hp
+            unfold absPath at ha
+            simp only [hp, beq_self_eq_true, if_true, Option.some.injEq] at ha
+            exact ha.symm
+
+/-- **C17, path of a merged result**: the empty string. -/
+theorem C17_path_merged (u e : KeyFile) : getPath (mergeFiles u e) = [] := rfl
+
+
+/-! ### the hypotheses are satisfiable -/
+
+/-- in the concrete document of `Props/C02.lean` the entry `k` (item 4, two physical lines) ends on line 5 -/
+example : ∃ before after, (expDoc exDoc).entries = before ++ entryOf (expDoc (exDoc.take 3)) exEntry1 :: after ∧
+    (entryOf (expDoc (exDoc.take 3)) exEntry1).line = 5 := by
+  obtain ⟨b, a, h1, h2⟩ := C17_line exCfg.eff (exDoc.take 3) [.entry exEntry2] exEntry1 (by
+    intro it hit; exact exDoc_wf it (by simpa [exDoc] using hit))
+  exact ⟨b, a, h1, by rw [h2]; decide⟩
+
+/-- `v = first` / `  second line ` / `\tthird`: three value lines -/
+def exEntry3 : EntryI :=
+  { indent := [], key := [0x76], ws1 := [0x20], d := 0x3d, ws2 := [0x20], value := .plain [0x66, 0x69, 0x72, 0x73, 0x74], tws := [], tc := none,
+    cont := [{ indent := [0x20, 0x20], text := [0x73, 0x65, 0x63, 0x6f, 0x6e, 0x64, 0x20, 0x6c, 0x69, 0x6e, 0x65], trail := [0x20] },
+             { indent := [0x09], text := [0x74, 0x68, 0x69, 0x72, 0x64], trail := [] }] }
+
+example : extValues (contValue exEntry3.expValue.1 exEntry3.cont) =
+    [[0x66, 0x69, 0x72, 0x73, 0x74], [0x73, 0x65, 0x63, 0x6f, 0x6e, 0x64, 0x20, 0x6c, 0x69, 0x6e, 0x65], [0x74, 0x68, 0x69, 0x72, 0x64]] := by
+  apply C17_values_plain exCfg.eff exEntry3 _ _ rfl (by decide)
+  · intro l hl
+    simp only [exEntry3, List.mem_cons, List.not_mem_nil, or_false] at hl
+    rcases hl with rfl | rfl
+    · exact ⟨⟨by decide, by decide, by decide, by decide, by decide, by decide⟩, by decide, by decide⟩
+    · exact ⟨⟨by decide, by decide, by decide, by decide, by decide, by decide⟩, by decide, by decide⟩
+  · refine ⟨by decide, by decide, by decide, by decide, by decide, by decide, by decide, by decide, by decide, by decide, ?_, trivial⟩
+    exact ⟨by decide, by decide, by decide, by decide⟩
+
 end Econf
